@@ -95,16 +95,18 @@ def checkSatisfied (r : AttrVal) (what : PyVal) (q : Option Inquiry) : Bool :=
   | .junk => false                               -- AttributeError, swallowed
   | .rule r => match r.eval what q with | .ok b => b | .error _ => false
 
-/-- the inner loop over one attribute dictionary; `acc` is `item_result` so far -/
+/-- one `key: rule` entry of an attribute dictionary against the inquiry value -/
+def attrStep (what : PyVal) (q : Option Inquiry) (k : List Char) (a : AttrVal) : Bool :=
+  match what with
+  | .dict d => (match lookup k d with
+                | some v => checkSatisfied a v q
+                | Option.none => false)               -- missing attribute
+  | _ => false                                        -- the value is not a dictionary
+
+/-- the inner loop over one attribute dictionary; `acc` is `item_result` so far (fail-fast `break`) -/
 def attrsLoop (what : PyVal) (q : Option Inquiry) : List (List Char × AttrVal) → Bool → Bool
   | [], acc => acc
-  | (k, r) :: rest, _ =>
-    let res := match what with
-      | .dict d => (match lookup k d with
-                    | some v => checkSatisfied r v q
-                    | Option.none => false)
-      | _ => false
-    if res then attrsLoop what q rest true else false
+  | (k, r) :: rest, _ => if attrStep what q k r then attrsLoop what q rest true else false
 
 def rulesElem (what : PyVal) (q : Option Inquiry) : Elem → Bool
   | .attrs kvs => attrsLoop what q kvs false
